@@ -8,9 +8,9 @@ def Q(prop, qid, src, defs=(), unwind=None, unwindset=(), tiers=('quick', 'thoro
     d.update(kw)
     QUERIES.append(d)
 
-def ML(n, cnt=45):
+def ML(n, cnt=45, fn='main'):
     """unwindset entries giving every loop in main (including do{}while(0) macro bodies) the bound n"""
-    return ['main.%d:%d' % (i, n) for i in range(cnt)]
+    return ['%s.%d:%d' % (fn, i, n) for i in range(cnt)]
 
 # ------------------------------------------------------------------ C13 minify
 PROPS['C13'] = dict(
@@ -93,7 +93,7 @@ for ts in (1, 2, 3, 4):
     QM(('C09', 'C05', 'C04', 'C01'), 'pstr.S%d' % ts, 'harness/print_str.c', defs=['-DTS=%d' % ts], unwind=ts + 3,
        unwindset=ML(6 * ts + 14) + ['strlen.0:%d' % (6 * ts + 6), 'memcmp.0:%d' % (ts + 3), 'vf_sprintf.3:26', 'vf_sprintf.0:8', 'vf_sprintf.1:8', 'vf_sprintf.2:8', 'parse_string.0:%d' % (6 * ts + 4), 'parse_string.1:%d' % (6 * ts + 4), 'ref_string.0:%d' % (6 * ts + 4), 'parse_hex4.0:5'], cost=8 * ts,
        tiers=('quick', 'thorough') if ts <= 2 else ('thorough',), functions=['print_string_ptr', 'ensure', 'parse_string', 'utf16_literal_to_utf8', 'parse_hex4'])
-QM(('C04', 'C05', 'C09'), 'pnum', 'harness/print_num.c', unwind=28, unwindset=ML(42) + ['vf_put_ulong.0:12', 'vf_put_ulong.1:12', 'vf_sprintf.0:28', 'vf_sprintf.1:28', 'vf_sprintf.2:28', 'vf_sprintf.3:28', 'strlen.0:8', 'memcmp.0:8'],
+QM(('C04', 'C05', 'C09'), 'pnum', 'harness/print_num.c', unwind=28, unwindset=ML(42) + ML(42, 30, 'body') + ['vf_put_ulong.0:12', 'vf_put_ulong.1:12', 'vf_sprintf.0:28', 'vf_sprintf.1:28', 'vf_sprintf.2:28', 'vf_sprintf.3:28', 'strlen.0:8', 'memcmp.0:8'],
    cost=30, functions=['print_number', 'compare_double', 'ensure', 'get_decimal_point'], timeout=900, native_search=True)
 QM(('C05', 'C09'), 'pleaf', 'harness/print_leaf.c', unwind=8, unwindset=ML(26), stub=['print_value', 'print_number', 'print_string_ptr', 'print_array', 'print_object'], cost=3,
    functions=['print_value', 'print_string', 'ensure'])
